@@ -551,4 +551,81 @@ theorem NeverCommitted.invisible {T : TS} {s : Store} (hn : NeverCommitted T s) 
   obtain ⟨hm, hv⟩ := firstVisible_mem h
   exact hn k w.commitTS ⟨w, hm, hT, hv, rfl⟩
 
+/-! ### what a resolver learns from a status check is true of the store (the resolver's side of the discipline) -/
+
+/-- a status answer carrying a commit ts: the primary has the transaction's data record at that ts, nothing changed -/
+theorem status_commit_sound (s s' : Store) (p : Bytes) (T caller cur : TS) (rb rp : Bool) (r : StatusResp)
+    (h : checkTxnStatus s p T caller cur rb rp = (s', r)) (hc : r.commitTS ≠ 0) :
+    HasData (getEntry s.kv p) T r.commitTS ∧ s' = s := by
+  simp only [checkTxnStatus] at h
+  cases hl : Option.filter (fun x => x.startTS == T) (getEntry s.kv p).lock with
+  | some l =>
+    rw [hl] at h
+    simp only [] at h
+    repeat' split at h
+    all_goals (injection h with _ h2; subst h2; exact absurd rfl hc)
+  | none =>
+    rw [hl] at h
+    simp only [] at h
+    cases hci : txnCommitInfo (getEntry s.kv p).writes T with
+    | none =>
+      rw [hci] at h
+      simp only [] at h
+      repeat' split at h
+      all_goals (injection h with _ h2; subst h2; exact absurd rfl hc)
+    | some c =>
+      rw [hci] at h
+      simp only [] at h
+      split at h
+      · rename_i hv
+        injection h with h1 h2; subst h2; subst h1
+        have hmem := List.mem_of_find?_eq_some hci
+        have hst : c.startTS = T := by simpa using List.find?_some hci
+        exact ⟨⟨c, hmem, hst, by simpa using hv, rfl⟩, rfl⟩
+      · injection h with _ h2; subst h2; exact absurd rfl hc
+
+/-- a status answer reporting one of the two rollback actions: afterwards the primary carries the rollback record -/
+theorem status_rollback_sound (s s' : Store) (p : Bytes) (T caller cur : TS) (rb rp : Bool) (r : StatusResp)
+    (hs : KvSorted s.kv) (h : checkTxnStatus s p T caller cur rb rp = (s', r))
+    (ha : r.action = .ttlExpireRollback ∨ r.action = .lockNotExistRollback) :
+    HasRb (getEntry s'.kv p) T := by
+  have hmark : ∀ acts, (acts = rollbackLock p T ∨ acts = [rollbackMarker p T]) →
+      HasRb (getEntry (applyBatch s.kv acts) p) T := by
+    intro acts hacts
+    rw [getEntry_applyBatch _ _ _ hs]
+    rcases hacts with rfl | rfl
+    · have : (rollbackLock p T).filter (fun a => a.key == p) = rollbackLock p T := by
+        simp [rollbackLock, rollbackMarker, Act.key]
+      rw [this]; unfold HasRb; rw [rollbackLock_writes]; exact ⟨_, mem_putWrite _ _, rfl, rfl⟩
+    · have : [rollbackMarker p T].filter (fun a => a.key == p) = [rollbackMarker p T] := by
+        simp [rollbackMarker, Act.key]
+      rw [this]; unfold HasRb; rw [marker_writes]; exact ⟨_, mem_putWrite _ _, rfl, rfl⟩
+  simp only [checkTxnStatus] at h
+  cases hl : Option.filter (fun x => x.startTS == T) (getEntry s.kv p).lock with
+  | some l =>
+    rw [hl] at h
+    simp only [] at h
+    split at h
+    · split at h
+      · injection h with _ h2; subst h2; rcases ha with ha | ha <;> cases ha
+      · injection h with h1 _; subst h1; exact hmark _ (Or.inl rfl)
+    · repeat' split at h
+      all_goals (injection h with _ h2; subst h2; rcases ha with ha | ha <;> cases ha)
+  | none =>
+    rw [hl] at h
+    simp only [] at h
+    cases hci : txnCommitInfo (getEntry s.kv p).writes T with
+    | some c =>
+      rw [hci] at h
+      simp only [] at h
+      split at h <;> (injection h with _ h2; subst h2; rcases ha with ha | ha <;> cases ha)
+    | none =>
+      rw [hci] at h
+      simp only [] at h
+      split at h
+      · split at h
+        · injection h with _ h2; subst h2; rcases ha with ha | ha <;> cases ha
+        · injection h with h1 _; subst h1; exact hmark _ (Or.inr rfl)
+      · injection h with _ h2; subst h2; rcases ha with ha | ha <;> cases ha
+
 end CGV.Mvcc
